@@ -444,9 +444,7 @@ def _simplify(expr: HplExpression) -> HplExpression:
     if isinstance(expr, HplSet):
         values = [_simplify(v) for v in expr.values]
         n = len(expr.values)
-        value_set = set(values)
-        if len(value_set) != n:
-            return HplSet(value_set)
+        # repeated members are kept: len, sum and prod fold over the listed members
         for i in range(n):
             if values[i] is not expr.values[i]:
                 return HplSet(values)
